@@ -98,6 +98,7 @@ if __name__ == '__main__':
             sc_run = sc
         mirsym.set_mode(mode)
         del mirsym.RANGE[:]
+        del mirsym.XDUMP[:]
         r = CATALOG[sc_run](fns, src, nmax)
         if r.verdict == 'inconclusive' and 'solver returned unknown' in (r.reason or '') and mode == 'bv':
             # bit-blasting a symbolic product / quotient did not finish: decide the same obligations over mathematical integers in [0, 2^64)
@@ -105,9 +106,18 @@ if __name__ == '__main__':
             mode = 'int'
             mirsym.set_mode(mode)
             del mirsym.RANGE[:]
+            del mirsym.XDUMP[:]
             r = CATALOG[sc_run](fns, src, nmax)
         if sc.endswith('@ind'):
             r.bounds = 'ALL 64-bit N: the pipeline\'s internal iteration is summarised by an automatically instantiated and solver-checked loop invariant (induction over the iteration number) instead of unrolling; ' + r.bounds.replace('N <= %d' % nmax, 'no bound on N')
         r.bounds += ' [numeric back-end: %s]' % ('mathematical integers in [0, 2^64) with explicit wrap conditions' if mode == 'int' else '64-bit bit-vectors')
         r.name = full_name
-        print(json.dumps(r.to_dict()), flush=True)
+        d = r.to_dict()
+        if mirsym.XDUMP_ON[0]:
+            # the obligations z3 discharged, decided again by cvc5 and by the system's z3 4.8.12 (see xcheck.py)
+            import xcheck
+            xc = xcheck.run(mirsym.XDUMP, cap=int(os.environ.get('MIRSYM_XCHECK_CAP', '0')))
+            d['xcheck'] = xc
+            if xc['disagreements'] and d['verdict'] == 'pass':
+                d['verdict'], d['reason'] = 'inconclusive', 'solvers disagree on %d discharged obligation(s): %s' % (len(xc['disagreements']), json.dumps(xc['disagreements'][0])[:500])
+        print(json.dumps(d), flush=True)
